@@ -1,6 +1,7 @@
 import RosuModel.Model.GradualWire
 import RosuModel.Model.BuilderWire
 import RosuModel.Model.Convert
+import RosuModel.Model.DecodeWire
 
 open Rosu
 
@@ -10,6 +11,16 @@ def handle (line : String) : String :=
   | ["ONE", mode, objs, take] => Gradual.handleOne mode objs take
   | ["BLD", kind, mode, calls] => Builder.handleBld kind mode calls
   | ["CONV", mode, isConv, target] => Convert.handleConv mode isConv target
+  | ["TANDEM", keys, payload] => Decode.handleTandem keys payload
+  | ["LEGACY", depth, keys] => Decode.handleLegacy depth keys
+  | ["LEGACYFB", keys] => Decode.handleLegacyFb keys
+  | ["DECODE", mania, times, tags, sounds] => Decode.handleDecode mania times tags sounds
+  | ["CLAMP", mania, f32s, f64s] => Decode.handleClamp mania f32s f64s
+  | ["CPTS", lines] => Decode.handlePoints lines
+  | ["COL", total, xs] => Decode.handleCol total xs
+  | ["C2P", total] => Decode.handleC2P total
+  | ["C2PSET", total, xs] => Decode.handleC2PSet total xs
+  | ["TCOL", keys, rcs, rod, count, len] => Decode.handleTargetColumns keys rcs rod count len
   | _ => "bad-op"
 
 partial def loop (h : IO.FS.Stream) (out : IO.FS.Stream) : IO Unit := do
